@@ -236,6 +236,7 @@ th_ptr -> 4080-4087:
 }
 
 static inline void init_myth_thread_struct(myth_running_env_t env, myth_thread_t th) {
+  MYTH_VERIF_EVENT("create.init", th, 0);
   th->status = MYTH_STATUS_READY;
   th->join_thread = NULL;
   th->detached = 0;
@@ -258,6 +259,7 @@ static inline void init_myth_thread_struct(myth_running_env_t env, myth_thread_t
 //Release thread descriptor
 static inline void free_myth_thread_struct_desc(myth_running_env_t e,myth_thread_t th)
 {
+  MYTH_VERIF_EVENT("free.desc", th, e->rank);
   /*if (e!=myth_get_current_env()){
     fprintf(stderr,"Rank error %d->%d\n",myth_get_current_env()->rank,e->rank);
     assert(0);
@@ -288,6 +290,7 @@ static inline void free_myth_thread_struct_desc(myth_running_env_t e,myth_thread
 //Release thread descriptor
 static inline void free_myth_thread_struct_stack(myth_running_env_t e,myth_thread_t th)
 {
+  MYTH_VERIF_EVENT("free.stack", th->stack, e->rank);
   /*if (e!=myth_get_current_env()){
     fprintf(stderr,"Rank error %d->%d\n",myth_get_current_env()->rank,e->rank);
     assert(0);
@@ -362,6 +365,7 @@ MYTH_CTX_CALLBACK void myth_create_1(void *arg1,void *arg2,void *arg3) {
   }
 #endif
   // Call entry point function
+  MYTH_VERIF_EVENT("create.start", new_thread, 1);
   new_thread->result = (*fn)(new_thread->result);
   //myth_log_add(new_thread->env,MYTH_LOG_INT);
   myth_entry_point_cleanup(new_thread);
@@ -396,6 +400,7 @@ static inline int myth_create_ex_body(myth_thread_t * id,
   // Allocate new thread descriptor
   myth_thread_t new_thread = get_new_myth_thread_struct_desc(env);
   (void)_;
+  MYTH_VERIF_EVENT("alloc.desc", new_thread, env->rank);
   new_thread->next = 0;
 #if MYTH_DEBUG_JOIN_FCC
   new_thread->join_called_at = 0;
@@ -411,6 +416,7 @@ static inline int myth_create_ex_body(myth_thread_t * id,
 #if MYTH_SPLIT_STACK_DESC /* default */
   // allocate stack and get pointer
   void * stk = get_new_myth_thread_struct_stack(env, stack_size);
+  MYTH_VERIF_EVENT("alloc.stack", stk, stack_size);
   new_thread->stack = stk;
   new_thread->stack_size = stack_size;
 #else
@@ -504,6 +510,7 @@ static inline void myth_exit_body(void *ret) {
 
 static inline void myth_join_1(myth_running_env_t e,myth_thread_t th,void **result)
 {
+  MYTH_VERIF_POINT("join.reap", th, 0);
   if (result!=NULL){
     *result=th->result;
   }
@@ -514,9 +521,12 @@ MYTH_CTX_CALLBACK void myth_join_2(void *arg1,void *arg2,void *arg3)
 {
   myth_running_env_t env=arg1;
   myth_thread_t th=arg2,next_thread=arg3;
+  MYTH_VERIF_EVENT("cb.enter", env->this_thread, 0);
   //Set join target
+  MYTH_VERIF_POINT("join.cb.set", th, env->this_thread);
   myth_desc_join_set(th,env->this_thread);
   myth_spin_unlock_body(&th->lock);
+  MYTH_VERIF_EVENT("cb.leave", env->this_thread, 0);
   //Change current running thread
   env->this_thread=next_thread;
   //myth_log_add(env,MYTH_LOG_USER);
@@ -526,10 +536,13 @@ MYTH_CTX_CALLBACK void myth_join_3(void *arg1,void *arg2,void *arg3)
 {
   myth_thread_t this_thread=arg1,th=arg2;
   (void)arg3;
+  MYTH_VERIF_EVENT("cb.enter", this_thread, 0);
   //Set join target
+  MYTH_VERIF_POINT("join.cb.set", th, this_thread);
   myth_desc_join_set(th,this_thread);
   //Change current running thread
   myth_spin_unlock_body(&th->lock);
+  MYTH_VERIF_EVENT("cb.leave", this_thread, 0);
 }
 
 //Wait until the finish of a thread
@@ -586,6 +599,7 @@ static inline int myth_join_body(myth_thread_t th,void **result) {
 #endif
   //Obtain lock and check again
   myth_spin_lock_body(&th->lock);
+  MYTH_VERIF_POINT("join.check", th, 0);
   //If target is finished, return
   if (myth_desc_is_finished(th)){
 #if MYTH_DEBUG_JOIN_FCC
@@ -597,7 +611,7 @@ static inline int myth_join_body(myth_thread_t th,void **result) {
     myth_dprintf("myth_join:join thread (%p) is already finished. Return immediately\n",th);
 #endif
     myth_spin_unlock_body(&th->lock);
-    while (th->status != MYTH_STATUS_FREE_READY2);
+    while (th->status != MYTH_STATUS_FREE_READY2) MYTH_VERIF_SPIN("join.wait2", th);
 #if MYTH_JOIN_PROF_DETAIL
     if (result) *result = th->result;
     t1 = myth_get_rdtsc();
@@ -664,7 +678,7 @@ static inline int myth_join_body(myth_thread_t th,void **result) {
   //Get return value
   myth_spin_unlock_body(&th->lock);
 #endif
-  while (th->status != MYTH_STATUS_FREE_READY2) { }
+  while (th->status != MYTH_STATUS_FREE_READY2) { MYTH_VERIF_SPIN("join.wait2", th); }
   // use myth_get_current_env_noinline here to prevent compiler from sharing
   // the same g_worker_rank before and after context switching
   myth_join_1(myth_get_current_env_noinline(),th,result);
@@ -688,10 +702,11 @@ static inline int myth_tryjoin_body(myth_thread_t th,void **result) {
   env = myth_get_current_env();
   //Obtain lock and check again
   myth_spin_lock_body(&th->lock);
+  MYTH_VERIF_POINT("tryjoin.check", th, 0);
   //If target is finished, return
   if (myth_desc_is_finished(th)){
     myth_spin_unlock_body(&th->lock);
-    while (th->status != MYTH_STATUS_FREE_READY2) { }
+    while (th->status != MYTH_STATUS_FREE_READY2) { MYTH_VERIF_SPIN("join.wait2", th); }
     myth_join_1(env,th,result);
     //myth_log_add(env,MYTH_LOG_USER);
     return 0;
@@ -856,19 +871,24 @@ static inline int myth_create_join_many_ex_body(myth_thread_t * ids,
 
 static inline int myth_detach_body(myth_thread_t th)
 {
+  MYTH_VERIF_POINT("detach.fast", th, 0);
   if (th->status==MYTH_STATUS_FREE_READY2){
     //If a thread is finished, just release resource
+    MYTH_VERIF_POINT("detach.reap", th, 0);
     free_myth_thread_struct_desc(myth_get_current_env(),th);
     return 0;
   }
   //Obtain lock
   myth_spin_lock_body(&th->lock);
+  MYTH_VERIF_POINT("detach.check", th, 0);
   if (myth_desc_is_finished(th)){//If a thread is finished, release resource
     myth_spin_unlock_body(&th->lock);
-    while (th->status!=MYTH_STATUS_FREE_READY2);
+    while (th->status!=MYTH_STATUS_FREE_READY2) MYTH_VERIF_SPIN("join.wait2", th);
+    MYTH_VERIF_POINT("detach.reap", th, 0);
     free_myth_thread_struct_desc(myth_get_current_env(),th);
   }
   else{//Set a thread as detached
+    MYTH_VERIF_POINT("detach.set", th, 0);
     myth_desc_set_detached(th);
     myth_spin_unlock_body(&th->lock);
   }
@@ -1089,6 +1109,7 @@ static void __attribute__((unused)) myth_entry_point(void)
   myth_dprintf("Running thread %p(arg:%p)\n",this_thread,this_thread->arg);
 #endif
   //Execute a thread function
+  MYTH_VERIF_EVENT("create.start", this_thread, 0);
   this_thread->result=(*(this_thread->entry_func))(this_thread->result);
   myth_entry_point_cleanup(this_thread);
 }
@@ -1105,13 +1126,16 @@ MYTH_CTX_CALLBACK void myth_entry_point_1(void *arg1,void *arg2,void *arg3)
   env->prof_data.ep_switch += t1-env->prof_data.ep_d_tmp;
   t0 = myth_get_rdtsc();
 #endif
+  MYTH_VERIF_EVENT("cb.enter", this_thread, 0);
   free_myth_thread_struct_stack(env,this_thread);
+  MYTH_VERIF_POINT("finish.cb.detached", this_thread, 0);
   if (this_thread->detached){
     //The thread is detached. Release resource
 #if MYTH_ENTRY_POINT_DEBUG
     myth_dprintf("Thread %p is detached.Freed resource\n",this_thread);
 #endif
     myth_spin_unlock_body(&this_thread->lock);
+    MYTH_VERIF_POINT("finish.cb.freedesc", this_thread, 0);
     free_myth_thread_struct_desc(env,this_thread);
   }
   else{
@@ -1120,10 +1144,12 @@ MYTH_CTX_CALLBACK void myth_entry_point_1(void *arg1,void *arg2,void *arg3)
     myth_spin_unlock_body(&this_thread->lock);
     this_thread->status = MYTH_STATUS_FREE_READY2;
 #else
+    MYTH_VERIF_POINT("finish.cb.ready2", this_thread, 0);
     this_thread->status=MYTH_STATUS_FREE_READY2;
     myth_spin_unlock_body(&this_thread->lock);
 #endif
   }
+  MYTH_VERIF_EVENT("cb.leave", this_thread, 0);
   env->this_thread = next_thread;
 #if MYTH_EP_PROF_DETAIL
   t1=myth_get_rdtsc();
@@ -1154,13 +1180,16 @@ MYTH_CTX_CALLBACK void myth_entry_point_2(void *arg1,void *arg2,void *arg3)
   env->prof_data.ep_switch+=t1-env->prof_data.ep_d_tmp;
   t0=myth_get_rdtsc();
 #endif
+  MYTH_VERIF_EVENT("cb.enter", this_thread, 0);
   free_myth_thread_struct_stack(env,this_thread);
+  MYTH_VERIF_POINT("finish.cb.detached", this_thread, 0);
   if (this_thread->detached){
     //The thread is detached. Release resource
 #if MYTH_ENTRY_POINT_DEBUG
     myth_dprintf("Thread %p is detached.Freed resource\n",this_thread);
 #endif
     myth_spin_unlock_body(&this_thread->lock);
+    MYTH_VERIF_POINT("finish.cb.freedesc", this_thread, 0);
     free_myth_thread_struct_desc(env,this_thread);
   }
   else{
@@ -1169,10 +1198,12 @@ MYTH_CTX_CALLBACK void myth_entry_point_2(void *arg1,void *arg2,void *arg3)
     myth_spin_unlock_body(&this_thread->lock);
     this_thread->status=MYTH_STATUS_FREE_READY2;
 #else
+    MYTH_VERIF_POINT("finish.cb.ready2", this_thread, 0);
     this_thread->status=MYTH_STATUS_FREE_READY2;
     myth_spin_unlock_body(&this_thread->lock);
 #endif
   }
+  MYTH_VERIF_EVENT("cb.leave", this_thread, 0);
 #if MYTH_EP_PROF_DETAIL
   t1=myth_get_rdtsc();
   env->prof_data.ep_join+=t1-t0;
@@ -1211,7 +1242,9 @@ static inline void myth_entry_point_cleanup(myth_thread_t this_thread) {
   env->prof_data.ep_cycles_tmp = t2;
 #endif
   this_thread_v = this_thread;
+  MYTH_VERIF_EVENT("finish.enter", this_thread, 0);
   myth_spin_lock_body(&this_thread->lock);
+  MYTH_VERIF_POINT("finish.readjoin", this_thread, 0);
   myth_thread_t wait_thread = this_thread_v->join_thread;
   //Execute a thread waiting for current thread
   if (wait_thread){
